@@ -449,7 +449,7 @@ func (e *env) decoderChecks() {
 			w.Fail("NewTranscriptHash/digest-size", fmt.Sprintf("NewTranscriptHash(%s): panicked=%v, documented: panic exactly for digest sizes other than 32 and 64", hs[i].name, panicked), nil)
 		}
 	})
-	e.requires = append(e.requires, req{"decode-sig/accept", 100}, req{"decode-sig/reject-unmarked", 100}, req{"decode-sig/reject-scalar", 100},
-		req{"decode-pk/accept", 40}, req{"decode-pk/reject", 50}, req{"decode-sk/accept", 100}, req{"decode-sk/reject", 100},
-		req{"decode-kp/accept", 20}, req{"decode-kp/reject-mismatch", 20}, req{"decode-kp/reject-half", 20}, req{"lengths", 700}, req{"digest-size", 7})
+	e.requires = append(e.requires, req{"decode-sig/accept", 40}, req{"decode-sig/reject-unmarked", 40}, req{"decode-sig/reject-scalar", 40},
+		req{"decode-pk/accept", 12}, req{"decode-pk/reject", 20}, req{"decode-sk/accept", 40}, req{"decode-sk/reject", 40},
+		req{"decode-kp/accept", 8}, req{"decode-kp/reject-mismatch", 8}, req{"decode-kp/reject-half", 8}, req{"lengths", 700}, req{"digest-size", 7})
 }
